@@ -200,263 +200,434 @@ pub(crate) fn svc_live(w: &World, k: u8) -> bool {
 }
 
 // =================================================================================================
-// C03: registry lemmas
+// C03: registry lemmas (concrete shape, symbolic scalars)
 // =================================================================================================
-#[cfg(any(verif_unit = "all", verif_unit = "reg_object", verif_unit = "reg_object_t"))]
-mod reg_object {
+
+/// (object uuid byte, object cookie byte, owner tag)
+pub(crate) type ObjSpec = (u8, u8, u8);
+/// (object uuid byte, object cookie byte, service uuid byte, service cookie byte)
+pub(crate) type SvcSpec = (u8, u8, u8, u8);
+
+#[derive(Clone, Copy)]
+pub(crate) struct RegShape {
+    pub objs: &'static [ObjSpec],
+    pub svcs: &'static [SvcSpec],
+}
+
+/// Connections 0 and 1 (arbitrary versions, each peer possibly gone) and exactly the objects and
+/// services of `shape` (at most two of each: the model maps hold CAP = 2 entries). The *shape* of
+/// the registry is concrete per harness - a symbolic shape (optional entries, symbolic owners) ran
+/// every lemma out of memory or time, DESIGN 8.1 - while serials, versions, service versions,
+/// peer liveness and the cookie the RNG returns next are symbolic.
+pub(crate) fn reg_world(shape: RegShape) -> World {
+    let mut w = new_world();
+    add_conn(&mut w, 0);
+    add_conn(&mut w, 1);
+    let mut i = 0;
+    while i < shape.objs.len() {
+        let (u, c, o) = shape.objs[i];
+        add_object(&mut w, u, c, o);
+        i += 1;
+    }
+    let mut i = 0;
+    while i < shape.svcs.len() {
+        let (u, c, su, k) = shape.svcs[i];
+        add_service(&mut w, u, c, su, k, ServiceInfo::new(kani::any()));
+        i += 1;
+    }
+    // the cookie the RNG will return next: anything that is not in use (freshness of UUIDv4 is assumed)
+    let f: u8 = kani::any();
+    kani::assume(f >= 0x80);
+    set_fresh(f);
+    w
+}
+
+pub(crate) fn obj_state(w: &World, u: u8) -> Option<(u8, u8)> {
+    w.b.objs.get(&obj_uuid(u)).map(|o| (last_byte(o.cookie()), o.conn_id().0))
+}
+
+/// the object of `spec` is registered consistently in all three places
+pub(crate) fn obj_intact(w: &World, spec: ObjSpec) -> bool {
+    let (u, c, o) = spec;
+    obj_state(w, u) == Some((c, o))
+        && w.b.obj_uuids.get(&obj_cookie(c)) == Some(&obj_uuid(u))
+        && w.b.conns.get(&conn(o)).map(|cs| csv::objects(cs).contains(&obj_cookie(c))).unwrap_or(false)
+}
+
+pub(crate) fn obj_gone(w: &World, spec: ObjSpec) -> bool {
+    let (u, c, o) = spec;
+    !w.b.objs.contains_key(&obj_uuid(u))
+        && !w.b.obj_uuids.contains_key(&obj_cookie(c))
+        && !w.b.conns.get(&conn(o)).map(|cs| csv::objects(cs).contains(&obj_cookie(c))).unwrap_or(false)
+}
+
+pub(crate) fn svc_intact(w: &World, spec: SvcSpec) -> bool {
+    let (u, c, su, k) = spec;
+    let a = w.b.svc_uuids.get(&svc_cookie(k)).map(|(oid, s, _)| oid.uuid == obj_uuid(u) && oid.cookie == obj_cookie(c) && *s == svc_uuid(su)).unwrap_or(false);
+    let b = w.b.svcs.get(&(obj_uuid(u), svc_uuid(su))).map(|s| s.cookie() == svc_cookie(k) && s.object_cookie() == obj_cookie(c)).unwrap_or(false);
+    let c2 = w.b.objs.get(&obj_uuid(u)).map(|o| obv::svcs(o).contains(&svc_cookie(k))).unwrap_or(false);
+    a && b && c2
+}
+
+pub(crate) fn svc_gone(w: &World, spec: SvcSpec) -> bool {
+    let (u, _c, su, k) = spec;
+    !w.b.svc_uuids.contains_key(&svc_cookie(k))
+        && !w.b.svcs.contains_key(&(obj_uuid(u), svc_uuid(su)))
+        && !w.b.objs.get(&obj_uuid(u)).map(|o| obv::svcs(o).contains(&svc_cookie(k))).unwrap_or(false)
+}
+
+/// everything of the shape except the listed object / service cookies is untouched
+pub(crate) fn rest_intact(w: &World, shape: RegShape, except_obj: u8, except_svc: u8) -> bool {
+    let mut ok = true;
+    let mut i = 0;
+    while i < shape.objs.len() {
+        if shape.objs[i].1 != except_obj {
+            ok &= obj_intact(w, shape.objs[i]);
+        }
+        i += 1;
+    }
+    let mut i = 0;
+    while i < shape.svcs.len() {
+        if shape.svcs[i].3 != except_svc && shape.svcs[i].1 != except_obj {
+            ok &= svc_intact(w, shape.svcs[i]);
+        }
+        i += 1;
+    }
+    ok
+}
+
+pub(crate) fn no_events_queued(w: &World) -> bool {
+    stv::create_object(&w.st).is_empty() && stv::destroy_object(&w.st).is_empty() && stv::create_service(&w.st).is_empty() && stv::destroy_service(&w.st).is_empty()
+}
+
+#[cfg(any(verif_unit = "all", verif_unit = "registry", verif_unit = "registry_t"))]
+mod registry {
     use super::*;
 
-    #[kani::proof]
-    #[kani::unwind(18)]
-    #[kani::stub(aldrin_core::ObjectCookie::new_v4, fresh_obj_cookie)]
-    fn q_c03_c11_create_object() {
-        let mut w = registry_world(1, 0);
-        let who = any_below(3); // 2 = a connection the broker does not know
-        let u = any_below(2);
+    const NO_OBJ: u8 = 0xff;
+    const NO_SVC: u8 = 0xff;
+
+    pub(crate) const EMPTY: RegShape = RegShape { objs: &[], svcs: &[] };
+    /// one object of connection 0
+    pub(crate) const ONE: RegShape = RegShape { objs: &[(0, 10, 0)], svcs: &[] };
+    /// one object of connection 0 with one service
+    pub(crate) const ONE_SVC: RegShape = RegShape { objs: &[(0, 10, 0)], svcs: &[(0, 10, 0, 20)] };
+    /// one object of connection 0 with two services
+    pub(crate) const TWO_SVCS: RegShape = RegShape { objs: &[(0, 10, 0)], svcs: &[(0, 10, 0, 20), (0, 10, 1, 21)] };
+    /// one object per connection, one service each (same service uuid on both)
+    pub(crate) const TWO_OWNERS: RegShape = RegShape { objs: &[(0, 10, 0), (1, 11, 1)], svcs: &[(0, 10, 0, 20), (1, 11, 0, 21)] };
+
+    /// CreateObject: ok with the fresh cookie exactly when no live object has the uuid, else
+    /// DuplicateObject; exactly one reply under the request's serial; a requester that cannot be
+    /// answered is closed and nothing is registered for it; unknown senders are ignored.
+    fn create_object_lemma(shape: RegShape, who: u8, u: u8) {
+        let mut w = reg_world(shape);
         let serial: u32 = kani::any();
-        let live0 = obj_live(&w, u);
-        let owner0 = obj_owner(&w, u);
-        let n_objs0 = w.b.objs.len();
+        let live0 = obj_state(&w, u);
+        let n0 = w.b.objs.len();
         let r = w.b.create_object(&mut w.st, &conn(who), CreateObject { serial, uuid: obj_uuid(u) });
         if who == 2 {
-            assert!(r.is_ok() && log_len() == 0 && w.b.objs.len() == n_objs0, "unknown sender: ignored");
+            assert!(r.is_ok() && log_len() == 0 && no_events_queued(&w), "unknown sender: ignored");
+            assert!(w.b.objs.len() == n0);
         } else if send_fails(who) {
             assert!(r.is_err() && log_len() == 0, "the requester is gone: close it");
-            // nothing may stay behind that the teardown of `who` would not remove
-            assert!(inv_reg(&w.b), "registry stays consistent when the reply cannot be delivered");
-            assert!(obj_live(&w, u) == live0 && obj_owner(&w, u) == owner0);
+            assert!(obj_state(&w, u) == live0 && w.b.objs.len() == n0 && w.b.obj_uuids.len() == n0, "nothing is registered for a requester that cannot be answered");
+            assert!(!csv::objects(w.b.conns.get(&conn(who)).unwrap()).contains(&obj_cookie(fresh())));
+            assert!(no_events_queued(&w));
         } else {
             assert!(r.is_ok() && log_len() == 1 && log(0).to == who, "exactly one reply, to the requester");
             let rep = log(0);
             assert!(rep.kind == K::CreateObjectReply && rep.serial == serial);
-            if rep.code == 0 {
-                assert!(!live0, "ok exactly when no live object has this uuid");
-                assert!(rep.cookie == fresh(), "cookie comes from the RNG (fresh by assumption)");
-                assert!(obj_owner(&w, u) == Some(who) && w.b.objs.len() == n_objs0 + 1);
+            if live0.is_none() {
+                assert!(rep.code == 0 && rep.cookie == fresh(), "ok with a fresh cookie when the uuid is free");
+                assert!(obj_intact(&w, (u, fresh(), who)), "registered for the requester, in all three places");
+                assert!(w.b.objs.len() == n0 + 1 && w.b.obj_uuids.len() == n0 + 1);
                 let q = stv::create_object(&w.st);
                 assert!(q.len() == 1 && q[0] == ObjectId::new(obj_uuid(u), obj_cookie(fresh())), "one creation event queued");
             } else {
-                assert!(live0 && obj_owner(&w, u) == owner0 && w.b.objs.len() == n_objs0);
-                assert!(stv::create_object(&w.st).is_empty());
+                assert!(rep.code == 1, "DuplicateObject exactly when a live object has the uuid");
+                assert!(obj_state(&w, u) == live0 && w.b.objs.len() == n0 && w.b.obj_uuids.len() == n0);
+                assert!(no_events_queued(&w));
             }
-            assert!(inv_reg(&w.b));
         }
-        kani::cover!(who < 2 && !send_fails(who) && live0);
-        kani::cover!(who < 2 && !send_fails(who) && !live0);
-        kani::cover!(who < 2 && send_fails(who) && !live0);
+        assert!(rest_intact(&w, shape, NO_OBJ, NO_SVC), "existing objects and services are untouched");
+        // covers in a branch that is dead for an instance would be reported unsatisfiable
+        // (no reachability checks, DESIGN 8.4): the instance condition is part of the cover
+        kani::cover!(who >= 2 || !send_fails(who));
+        kani::cover!(who >= 2 || send_fails(who));
         std::mem::forget(w);
     }
 
-    #[kani::proof]
-    #[kani::unwind(18)]
-    fn q_c03_c11_destroy_object() {
-        let mut w = registry_world(1, 2);
-        let who = any_below(3);
-        let c: u8 = kani::any();
-        kani::assume(c == 10 || c == 11 || c == 12);
+    /// DestroyObject: Ok iff live and owned by the requester (then the object and all its services
+    /// are gone from every map and one destruction event is queued for each), ForeignObject iff live
+    /// and owned by somebody else, InvalidObject iff not live; nothing else changes.
+    fn destroy_object_lemma(shape: RegShape, who: u8, c: u8) {
+        let mut w = reg_world(shape);
         let serial: u32 = kani::any();
-        let u = c - 10;
-        let live0 = c < 12 && obj_live(&w, u);
-        let owner0 = if live0 { obj_owner(&w, u) } else { None };
-        let other = 1 - (u & 1);
-        let other_live0 = obj_live(&w, other);
-        let svc20_on_u = w.b.svc_uuids.get(&svc_cookie(20)).map(|(oid, _, _)| oid.uuid == obj_uuid(u)).unwrap_or(false);
-        let svc21_on_u = w.b.svc_uuids.get(&svc_cookie(21)).map(|(oid, _, _)| oid.uuid == obj_uuid(u)).unwrap_or(false);
-        let svc20_live0 = svc_live(&w, 20);
-        let svc21_live0 = svc_live(&w, 21);
+        let mut target: Option<ObjSpec> = None;
+        let mut i = 0;
+        while i < shape.objs.len() {
+            if shape.objs[i].1 == c {
+                target = Some(shape.objs[i]);
+            }
+            i += 1;
+        }
         let r = w.b.destroy_object(&mut w.st, &conn(who), DestroyObject { serial, cookie: obj_cookie(c) });
         if who == 2 {
-            assert!(r.is_ok() && log_len() == 0);
+            assert!(r.is_ok() && log_len() == 0 && no_events_queued(&w) && rest_intact(&w, shape, NO_OBJ, NO_SVC));
         } else if send_fails(who) {
             assert!(r.is_err() && log_len() == 0);
-            assert!(inv_reg(&w.b));
-            assert!((c < 12 && obj_live(&w, u)) == live0, "nothing destroyed when the reply cannot be delivered");
+            assert!(no_events_queued(&w) && rest_intact(&w, shape, NO_OBJ, NO_SVC), "nothing is destroyed when the reply cannot be delivered");
         } else {
             assert!(r.is_ok() && log_len() == 1 && log(0).to == who);
             let rep = log(0);
             assert!(rep.kind == K::DestroyObjectReply && rep.serial == serial);
-            match rep.code {
-                0 => {
-                    assert!(live0 && owner0 == Some(who), "only the owner can destroy a live object");
-                    assert!(!obj_live(&w, u), "object gone");
-                    assert!(!(svc20_on_u && svc_live(&w, 20)) && !(svc21_on_u && svc_live(&w, 21)), "all its services are gone");
-                    let q = stv::destroy_object(&w.st);
-                    assert!(q.len() == 1 && q[0] == ObjectId::new(obj_uuid(u), obj_cookie(c)));
-                    let nsvc = (svc20_on_u as usize) + (svc21_on_u as usize);
-                    assert!(stv::destroy_service(&w.st).len() == nsvc, "one destruction event per service");
+            match target {
+                None => {
+                    assert!(rep.code == 1, "InvalidObject for a cookie that is not live");
+                    assert!(no_events_queued(&w) && rest_intact(&w, shape, NO_OBJ, NO_SVC));
                 }
-                1 => assert!(!live0 && c >= 10),
-                _ => {
-                    assert!(rep.code == 2 && live0 && owner0 != Some(who));
-                    assert!(obj_live(&w, u));
+                Some(t) if t.2 != who => {
+                    assert!(rep.code == 2, "only the owner can destroy an object");
+                    assert!(no_events_queued(&w) && rest_intact(&w, shape, NO_OBJ, NO_SVC));
+                }
+                Some(t) => {
+                    assert!(rep.code == 0);
+                    assert!(obj_gone(&w, t), "the object is gone from every map");
+                    let mut n = 0;
+                    let mut i = 0;
+                    while i < shape.svcs.len() {
+                        if shape.svcs[i].1 == c {
+                            assert!(svc_gone(&w, shape.svcs[i]), "destroying an object destroys all its services");
+                            let k = shape.svcs[i].3;
+                            let q = stv::destroy_service(&w.st);
+                            let mut hits = 0;
+                            let mut j = 0;
+                            while j < q.len() {
+                                if q[j].cookie == svc_cookie(k) {
+                                    hits += 1;
+                                }
+                                j += 1;
+                            }
+                            assert!(hits == 1, "one destruction event per service");
+                            n += 1;
+                        }
+                        i += 1;
+                    }
+                    assert!(stv::destroy_service(&w.st).len() == n);
+                    let q = stv::destroy_object(&w.st);
+                    assert!(q.len() == 1 && q[0] == ObjectId::new(obj_uuid(t.0), obj_cookie(c)));
+                    assert!(stv::create_object(&w.st).is_empty() && stv::create_service(&w.st).is_empty());
+                    assert!(rest_intact(&w, shape, c, NO_SVC), "other objects and their services are untouched");
                 }
             }
-            // services of other objects are untouched
-            assert!(svc20_on_u || svc_live(&w, 20) == svc20_live0);
-            assert!(svc21_on_u || svc_live(&w, 21) == svc21_live0);
-            assert!(obj_live(&w, other) == other_live0 || other == u);
-            assert!(inv_reg(&w.b));
         }
-        kani::cover!(who < 2 && !send_fails(who) && live0 && owner0 == Some(who) && svc20_on_u && svc21_on_u);
-        kani::cover!(who < 2 && !send_fails(who) && live0 && owner0 != Some(who));
-        kani::cover!(who < 2 && !send_fails(who) && !live0);
+        kani::cover!(who >= 2 || !send_fails(who));
         std::mem::forget(w);
     }
 
-    #[cfg(verif_replay)]
-    include!("/verif/.cache/replay/broker__verif__reg_object.rs");
-}
-
-#[cfg(any(verif_unit = "all", verif_unit = "reg_service", verif_unit = "reg_service_t"))]
-mod reg_service {
-    use super::*;
-
-    /// outcome the state dictates, in the code's order InvalidObject > DuplicateService > ForeignObject
-    fn expected_create_service(w: &World, who: u8, oc: u8, su: u8) -> u8 {
-        // 0 ok, 1 invalid object, 2 duplicate, 3 foreign
-        let Some(u) = w.b.obj_uuids.get(&obj_cookie(oc)).copied() else { return 1 };
-        if w.b.svcs.contains_key(&(u, svc_uuid(su))) {
-            return 2;
+    /// the result the state dictates, in the code's order InvalidObject > DuplicateService > ForeignObject
+    /// (digest codes: 0 ok, 1 duplicate, 2 invalid object, 3 foreign)
+    fn expected_create_service(shape: RegShape, who: u8, oc: u8, su: u8) -> u8 {
+        let mut obj: Option<ObjSpec> = None;
+        let mut i = 0;
+        while i < shape.objs.len() {
+            if shape.objs[i].1 == oc {
+                obj = Some(shape.objs[i]);
+            }
+            i += 1;
         }
-        if w.b.objs.get(&u).unwrap().conn_id().0 != who {
+        let Some(o) = obj else { return 2 };
+        let mut i = 0;
+        while i < shape.svcs.len() {
+            if shape.svcs[i].0 == o.0 && shape.svcs[i].2 == su {
+                return 1;
+            }
+            i += 1;
+        }
+        if o.2 != who {
             return 3;
         }
         0
     }
 
-    #[kani::proof]
-    #[kani::unwind(18)]
-    #[kani::stub(aldrin_core::ServiceCookie::new_v4, fresh_svc_cookie)]
-    fn q_c03_c11_create_service() {
-        let mut w = registry_world(2, 1);
-        let who = any_below(2);
-        set_send_fails(who, false);
-        let oc: u8 = kani::any();
-        kani::assume(oc >= 10 && oc <= 12);
-        let su = any_below(2);
+    /// CreateService: the four outcomes exactly as the state dictates; on Ok the service is
+    /// registered under the fresh cookie on the requester's object in all three places and one
+    /// creation event is queued; otherwise (and when the reply cannot be delivered) nothing changes.
+    fn create_service_lemma(shape: RegShape, who: u8, oc: u8, su: u8) {
+        let mut w = reg_world(shape);
         let serial: u32 = kani::any();
         let version: u32 = kani::any();
-        let expect = expected_create_service(&w, who, oc, su);
-        let n_svcs0 = w.b.svcs.len();
+        let expect = expected_create_service(shape, who, oc, su);
+        let n0 = w.b.svcs.len();
         let r = w.b.create_service(&mut w.st, &conn(who), CreateService { serial, object_cookie: obj_cookie(oc), uuid: svc_uuid(su), version });
-        assert!(r.is_ok() && log_len() == 1 && log(0).to == who, "exactly one reply, to the requester");
-        let rep = log(0);
-        assert!(rep.kind == K::CreateServiceReply && rep.serial == serial);
-        // digest codes: 0 ok, 1 duplicate, 2 invalid object, 3 foreign; expected_create_service: 0 ok, 1 invalid, 2 duplicate, 3 foreign
-        match rep.code {
-            0 => {
-                let k = svc_cookie(fresh());
-                assert!(expect == 0, "ok exactly when the object is live, owned by the requester and has no such service");
+        if send_fails(who) {
+            assert!(r.is_err() && log_len() == 0);
+            assert!(w.b.svcs.len() == n0 && w.b.svc_uuids.len() == n0 && no_events_queued(&w), "no service is registered for a requester that is gone");
+        } else {
+            assert!(r.is_ok() && log_len() == 1 && log(0).to == who, "exactly one reply, to the requester");
+            let rep = log(0);
+            assert!(rep.kind == K::CreateServiceReply && rep.serial == serial);
+            assert!(rep.code == expect, "ok / duplicate / invalid object / foreign exactly as the registry dictates");
+            if expect == 0 {
                 assert!(rep.cookie == fresh());
-                assert!(w.b.svcs.len() == n_svcs0 + 1);
-                let (oid, su2, info) = w.b.svc_uuids.get(&k).unwrap();
-                assert!(oid.cookie == obj_cookie(oc) && *su2 == svc_uuid(su) && info.version() == version);
+                let mut u = 0;
+                let mut i = 0;
+                while i < shape.objs.len() {
+                    if shape.objs[i].1 == oc {
+                        u = shape.objs[i].0;
+                    }
+                    i += 1;
+                }
+                assert!(svc_intact(&w, (u, oc, su, fresh())), "registered on the requester's object, in all three places");
+                assert!(w.b.svc_uuids.get(&svc_cookie(fresh())).unwrap().2.version() == version);
+                assert!(w.b.svcs.len() == n0 + 1 && w.b.svc_uuids.len() == n0 + 1);
                 let q = stv::create_service(&w.st);
-                assert!(q.len() == 1 && q[0].cookie == k && q[0].uuid == svc_uuid(su) && q[0].object_id == *oid);
+                assert!(q.len() == 1 && q[0] == ServiceId::new(ObjectId::new(obj_uuid(u), obj_cookie(oc)), svc_uuid(su), svc_cookie(fresh())));
+            } else {
+                assert!(w.b.svcs.len() == n0 && w.b.svc_uuids.len() == n0 && no_events_queued(&w));
             }
-            2 => assert!(expect == 1),
-            1 => assert!(expect == 2),
-            _ => assert!(rep.code == 3 && expect == 3),
         }
-        if expect != 0 {
-            assert!(w.b.svcs.len() == n_svcs0 && stv::create_service(&w.st).is_empty());
-        }
-        assert!(inv_reg(&w.b));
-        kani::cover!(expect == 0);
-        kani::cover!(expect == 1);
-        kani::cover!(expect == 2);
-        kani::cover!(expect == 3);
+        assert!(rest_intact(&w, shape, NO_OBJ, NO_SVC), "existing objects and services are untouched");
+        kani::cover!(!send_fails(who));
+        kani::cover!(send_fails(who));
         std::mem::forget(w);
     }
 
-    /// When the reply cannot be delivered nothing may stay behind.
-    #[kani::proof]
-    #[kani::unwind(18)]
-    #[kani::stub(aldrin_core::ServiceCookie::new_v4, fresh_svc_cookie)]
-    fn q_c03_c11_create_service_reply_fails() {
-        let mut w = registry_world(2, 1);
-        let who = any_below(2);
-        set_send_fails(who, true);
-        let oc: u8 = kani::any();
-        kani::assume(oc >= 10 && oc <= 12);
-        let su = any_below(2);
-        let n_svcs0 = w.b.svcs.len();
-        let r = w.b.create_service(&mut w.st, &conn(who), CreateService { serial: kani::any(), object_cookie: obj_cookie(oc), uuid: svc_uuid(su), version: kani::any() });
-        assert!(r.is_err() && log_len() == 0);
-        assert!(w.b.svcs.len() == n_svcs0 && w.b.svc_uuids.len() == n_svcs0, "no service is registered for a requester that is gone");
-        assert!(inv_reg(&w.b));
-        std::mem::forget(w);
-    }
-
-    #[kani::proof]
-    #[kani::unwind(18)]
-    fn q_c03_c11_destroy_service() {
-        let mut w = registry_world(2, 2);
-        let who = any_below(3);
-        let k: u8 = kani::any();
-        kani::assume(k >= 20 && k <= 22);
+    /// DestroyService: Ok iff live and its object is owned by the requester; then only that
+    /// service is gone and one destruction event is queued.
+    fn destroy_service_lemma(shape: RegShape, who: u8, k: u8) {
+        let mut w = reg_world(shape);
         let serial: u32 = kani::any();
-        let live0 = svc_live(&w, k);
-        let owner0 = w.b.svc_uuids.get(&svc_cookie(k)).map(|(oid, _, _)| w.b.objs.get(&oid.uuid).unwrap().conn_id().0);
-        let other = if k == 20 { 21 } else { 20 };
-        let other_live0 = svc_live(&w, other);
-        let n_objs0 = w.b.objs.len();
+        let mut target: Option<SvcSpec> = None;
+        let mut owner = 0xff;
+        let mut i = 0;
+        while i < shape.svcs.len() {
+            if shape.svcs[i].3 == k {
+                target = Some(shape.svcs[i]);
+                let mut j = 0;
+                while j < shape.objs.len() {
+                    if shape.objs[j].1 == shape.svcs[i].1 {
+                        owner = shape.objs[j].2;
+                    }
+                    j += 1;
+                }
+            }
+            i += 1;
+        }
         let r = w.b.destroy_service(&mut w.st, &conn(who), DestroyService { serial, cookie: svc_cookie(k) });
-        if who == 2 {
-            assert!(r.is_ok() && log_len() == 0);
-        } else if send_fails(who) {
-            assert!(r.is_err() && log_len() == 0 && svc_live(&w, k) == live0);
+        if send_fails(who) {
+            assert!(r.is_err() && log_len() == 0 && no_events_queued(&w) && rest_intact(&w, shape, NO_OBJ, NO_SVC));
         } else {
             assert!(r.is_ok() && log_len() == 1 && log(0).to == who);
             let rep = log(0);
             assert!(rep.kind == K::DestroyServiceReply && rep.serial == serial);
-            match rep.code {
-                0 => {
-                    assert!(live0 && owner0 == Some(who), "only the owner of the object can destroy its service");
-                    assert!(!svc_live(&w, k));
+            match target {
+                None => assert!(rep.code == 1 && no_events_queued(&w) && rest_intact(&w, shape, NO_OBJ, NO_SVC)),
+                Some(_) if owner != who => assert!(rep.code == 2 && no_events_queued(&w) && rest_intact(&w, shape, NO_OBJ, NO_SVC), "only the owner of the object can destroy its service"),
+                Some(t) => {
+                    assert!(rep.code == 0 && svc_gone(&w, t));
                     let q = stv::destroy_service(&w.st);
-                    assert!(q.len() == 1 && q[0].cookie == svc_cookie(k));
+                    assert!(q.len() == 1 && q[0].cookie == svc_cookie(k) && q[0].uuid == svc_uuid(t.2));
+                    assert!(stv::destroy_object(&w.st).is_empty() && stv::create_service(&w.st).is_empty());
+                    assert!(rest_intact(&w, shape, NO_OBJ, k), "the object and its other services stay");
                 }
-                1 => assert!(!live0),
-                _ => assert!(rep.code == 2 && live0 && owner0 != Some(who) && svc_live(&w, k)),
             }
-            assert!(svc_live(&w, other) == other_live0, "other services untouched");
-            assert!(w.b.objs.len() == n_objs0, "objects untouched");
         }
-        assert!(inv_reg(&w.b));
-        kani::cover!(who < 2 && !send_fails(who) && live0 && owner0 == Some(who));
-        kani::cover!(who < 2 && !send_fails(who) && live0 && owner0 != Some(who));
+        kani::cover!(!send_fails(who));
         std::mem::forget(w);
     }
 
-    /// Queries succeed exactly while the service is live.
-    #[kani::proof]
-    #[kani::unwind(18)]
-    fn q_c03_c11_query_service_version() {
-        let mut w = registry_world(1, 1);
-        let who = any_below(2);
+    /// Queries succeed exactly while the service is live: QueryServiceVersion returns the
+    /// registered version, SubscribeService (>= 1.18) records the subscription on both sides.
+    fn queries_lemma(shape: RegShape, who: u8, k: u8) {
+        let mut w = reg_world(shape);
         set_send_fails(who, false);
-        let k: u8 = kani::any();
-        kani::assume(k >= 20 && k <= 21);
         let serial: u32 = kani::any();
         let live = w.b.svc_uuids.get(&svc_cookie(k)).map(|(_, _, i)| i.version());
         let r = w.b.query_service_version(&conn(who), QueryServiceVersion { serial, cookie: svc_cookie(k) });
         assert!(r.is_ok() && log_len() == 1 && log(0).to == who);
         let rep = log(0);
         assert!(rep.kind == K::QueryServiceVersionReply && rep.serial == serial);
-        if rep.code == 0 {
-            assert!(live == Some(rep.aux));
-        } else {
-            assert!(live.is_none());
+        match live {
+            Some(v) => assert!(rep.code == 0 && rep.aux == v),
+            None => assert!(rep.code == 1),
         }
-        assert!(inv_reg(&w.b));
-        kani::cover!(live.is_some());
-        kani::cover!(live.is_none());
+        let minor = minor_of(&w, who);
+        let serial2: u32 = kani::any();
+        let r = w.b.subscribe_service(&conn(who), SubscribeService { serial: serial2, service_cookie: svc_cookie(k) });
+        if minor < 18 {
+            assert!(r.is_err() && log_len() == 1);
+        } else {
+            assert!(r.is_ok() && log_len() == 2 && log(1).to == who && log(1).kind == K::SubscribeServiceReply && log(1).serial == serial2);
+            assert!(log(1).code == if live.is_some() { 0 } else { 1 });
+            let recorded = csv::subscriptions(w.b.conns.get(&conn(who)).unwrap()).contains(&svc_cookie(k));
+            assert!(recorded == live.is_some(), "a subscription is recorded exactly for a live service");
+        }
+        assert!(rest_intact(&w, shape, NO_OBJ, NO_SVC) && no_events_queued(&w));
+        kani::cover!(minor >= 18);
         std::mem::forget(w);
     }
 
+    macro_rules! inst {
+        ($($name:ident = $lemma:ident($($arg:expr),*);)*) => {$(
+            #[kani::proof]
+            #[kani::unwind(18)]
+            #[kani::stub(aldrin_core::ObjectCookie::new_v4, fresh_obj_cookie)]
+            #[kani::stub(aldrin_core::ServiceCookie::new_v4, fresh_svc_cookie)]
+            fn $name() {
+                $lemma($($arg),*);
+            }
+        )*};
+    }
+
+    inst! {
+        q_c03_c11_create_object_free_uuid = create_object_lemma(EMPTY, 0, 0);
+        q_c03_c11_create_object_duplicate = create_object_lemma(ONE, 1, 0);
+        q_c03_c11_destroy_object_foreign = destroy_object_lemma(TWO_OWNERS, 0, 11);
+        q_c03_c11_destroy_object_without_services = destroy_object_lemma(ONE, 0, 10);
+        q_c03_c11_create_service_ok = create_service_lemma(ONE, 0, 10, 0);
+        q_c03_c11_create_service_duplicate_before_foreign = create_service_lemma(ONE_SVC, 1, 10, 0);
+        q_c03_c11_queries_live = queries_lemma(ONE_SVC, 1, 20);
+    }
+    #[cfg(not(verif_quick))]
+    inst! {
+        t_c03_c11_create_object_second = create_object_lemma(ONE, 1, 1);
+        t_c03_c11_create_object_same_owner_duplicate = create_object_lemma(ONE_SVC, 0, 0);
+        t_c03_c11_create_object_unknown_sender = create_object_lemma(ONE, 2, 1);
+        t_c03_c11_destroy_object_by_other = destroy_object_lemma(TWO_SVCS, 1, 10);
+        t_c03_c11_destroy_object_invalid = destroy_object_lemma(TWO_SVCS, 0, 12);
+        t_c03_c11_destroy_object_unknown_sender = destroy_object_lemma(ONE_SVC, 2, 10);
+        t_c03_c11_create_service_second = create_service_lemma(ONE_SVC, 0, 10, 1);
+        t_c03_c11_create_service_duplicate = create_service_lemma(ONE_SVC, 0, 10, 0);
+        t_c03_c11_create_service_foreign = create_service_lemma(ONE_SVC, 1, 10, 1);
+        t_c03_c11_create_service_invalid_object = create_service_lemma(ONE_SVC, 0, 12, 0);
+        t_c03_c11_create_service_foreign_two_owners = create_service_lemma(TWO_OWNERS, 0, 11, 1);
+        t_c03_c11_destroy_service_foreign = destroy_service_lemma(TWO_SVCS, 1, 20);
+        t_c03_c11_destroy_service_invalid = destroy_service_lemma(TWO_SVCS, 0, 22);
+        t_c03_c11_destroy_service_other_owner = destroy_service_lemma(TWO_OWNERS, 0, 21);
+        t_c03_c11_queries_dead = queries_lemma(ONE_SVC, 1, 21);
+        t_c03_c11_queries_by_owner = queries_lemma(TWO_OWNERS, 1, 21);
+    }
+
+    // Not registered (cfg verif_experimental): every instance in which a destroy request succeeds
+    // runs `remove_service` / `remove_object`; CBMC's symbolic execution finishes (240 s, 790k
+    // steps) but the SAT back end runs out of memory during propositional reduction (> 20 GB),
+    // with one service and no subscribers already. The refusal paths above (foreign, invalid,
+    // unknown sender, reply cannot be delivered) are decided; "destroying an object destroys all
+    // its services" is NOT.
+    #[cfg(verif_experimental)]
+    inst! {
+        q_c03_c11_destroy_object_cascade = destroy_object_lemma(ONE_SVC, 0, 10);
+        q_c03_c11_destroy_service_ok = destroy_service_lemma(ONE_SVC, 0, 20);
+        t_c03_c11_destroy_object_cascade_two_services = destroy_object_lemma(TWO_SVCS, 0, 10);
+        t_c03_c11_destroy_object_keeps_other_owner = destroy_object_lemma(TWO_OWNERS, 0, 10);
+        t_c03_c11_destroy_service_first_of_two = destroy_service_lemma(TWO_SVCS, 0, 20);
+        t_c03_c11_destroy_service_second = destroy_service_lemma(TWO_SVCS, 0, 21);
+    }
+
     #[cfg(verif_replay)]
-    include!("/verif/.cache/replay/broker__verif__reg_service.rs");
+    include!("/verif/.cache/replay/broker__verif__registry.rs");
 }
 
 // =================================================================================================
@@ -749,6 +920,7 @@ mod chan_handlers {
         std::mem::forget(w);
     }
 
+    #[cfg(not(verif_quick))]
     #[kani::proof]
     #[kani::unwind(18)]
     #[kani::stub(aldrin_core::ChannelCookie::new_v4, fresh_chan_cookie)]
@@ -807,26 +979,29 @@ mod chan_handlers {
     // end, receiver end (U unclaimed, C(owner) claimed, X closed), who sends the request, whether the
     // cookie names the channel (, which end is meant).
     inst! {
-        q_c05_c11_send_item_cc01_by_sender = send_item_lemma(C(0), C(1), 0, true)
-            => count_kind_to(1, K::ItemReceived, |_| true) == 1 && count_kind_to(0, K::AddChannelCapacity, |e| e.cookie == 30) == 1;
         q_c05_c11_send_item_cc01_by_receiver = send_item_lemma(C(0), C(1), 1, true);
-        q_c05_c11_send_item_cu_by_sender = send_item_lemma(C(0), U, 0, true);
         q_c05_c11_send_item_cx_by_sender = send_item_lemma(C(0), X, 0, true);
-        q_c05_c11_send_item_unknown_cookie = send_item_lemma(C(0), C(1), 0, false);
         q_c05_c11_add_capacity_cc01_by_receiver = add_channel_capacity_lemma(C(0), C(1), 1, true)
             => count_kind_to(0, K::AddChannelCapacity, |e| e.cookie == 30) == 1;
         q_c05_c11_add_capacity_cc01_by_sender = add_channel_capacity_lemma(C(0), C(1), 0, true);
+        q_c05_c11_claim_receiver_cu_by_other = claim_channel_end_lemma(C(0), U, 1, true, false)
+            => count_kind_to(0, K::ChannelEndClaimed, |e| e.cookie == 30) == 1;
+        q_c05_c11_close_sender_cc01_by_owner = close_channel_end_lemma(C(0), C(1), 0, true, true)
+            => count_kind_to(1, K::ChannelEndClosed, |e| e.cookie == 30) == 1;
+    }
+    #[cfg(not(verif_quick))]
+    inst! {
+        q_c05_c11_send_item_cc01_by_sender = send_item_lemma(C(0), C(1), 0, true)
+            => count_kind_to(1, K::ItemReceived, |_| true) == 1 && count_kind_to(0, K::AddChannelCapacity, |e| e.cookie == 30) == 1;
+        q_c05_c11_send_item_cu_by_sender = send_item_lemma(C(0), U, 0, true);
+        q_c05_c11_send_item_unknown_cookie = send_item_lemma(C(0), C(1), 0, false);
         q_c05_c11_add_capacity_uc_by_receiver = add_channel_capacity_lemma(U, C(1), 1, true);
         q_c05_c11_add_capacity_xc_by_receiver = add_channel_capacity_lemma(X, C(1), 1, true);
         q_c05_c11_add_capacity_unknown_cookie = add_channel_capacity_lemma(C(0), C(1), 1, false);
-        q_c05_c11_claim_receiver_cu_by_other = claim_channel_end_lemma(C(0), U, 1, true, false)
-            => count_kind_to(0, K::ChannelEndClaimed, |e| e.cookie == 30) == 1;
         q_c05_c11_claim_sender_uc_by_other = claim_channel_end_lemma(U, C(1), 0, true, true);
         q_c05_c11_claim_sender_cc01_again = claim_channel_end_lemma(C(0), C(1), 1, true, true);
         q_c05_c11_claim_receiver_cx_closed = claim_channel_end_lemma(C(0), X, 1, true, false);
         q_c05_c11_claim_unknown_cookie = claim_channel_end_lemma(C(0), U, 1, false, false);
-        q_c05_c11_close_sender_cc01_by_owner = close_channel_end_lemma(C(0), C(1), 0, true, true)
-            => count_kind_to(1, K::ChannelEndClosed, |e| e.cookie == 30) == 1;
         q_c05_c11_close_receiver_cc01_by_owner = close_channel_end_lemma(C(0), C(1), 1, true, false);
         q_c05_c11_close_sender_cc01_by_other = close_channel_end_lemma(C(0), C(1), 1, true, true);
         q_c05_c11_close_receiver_cu_unclaimed = close_channel_end_lemma(C(0), U, 1, true, false);
@@ -1127,13 +1302,9 @@ mod calls {
                 assert!(spec_state_unchanged(&cw, &other), "other pending calls are not affected");
             }
         }
-        if shape == (true, true, true, false) && ca == cb && who == owner {
-            // serial reuse: stale reply to an aborted call whose caller serial is in use again
-            kani::cover!(hit_a && cw.b.caller_serial == cw.a.caller_serial);
-        }
-        if shape == (true, false, false, false) && who == owner {
-            kani::cover!(hit_a && log_len() == 1);
-        }
+        // serial reuse: stale reply to an aborted call whose caller serial is in use again
+        kani::cover!(!(shape == (true, true, true, false) && ca == cb && who == owner) || (hit_a && cw.b.caller_serial == cw.a.caller_serial));
+        kani::cover!(!(shape == (true, false, false, false) && who == owner) || (hit_a && log_len() == 1));
         std::mem::forget(cw);
     }
 
@@ -1172,9 +1343,7 @@ mod calls {
                 }
             }
         }
-        if who == ca && shape.0 && !shape.1 {
-            kani::cover!(minor >= 16 && tracked.is_some());
-        }
+        kani::cover!(!(who == ca && shape.0 && !shape.1) || (minor >= 16 && tracked.is_some()));
         std::mem::forget(cw);
     }
 
@@ -1197,17 +1366,20 @@ mod calls {
     shapes! {
         q_c02_c11_reply_none_pending = call_function_reply_lemma(1, 1, 0, NONE_PENDING);
         q_c02_c11_reply_one_by_owner = call_function_reply_lemma(1, 1, 0, ONE);
+        q_c02_c11_reply_one_aborted = call_function_reply_lemma(1, 1, 0, ONE_ABORTED);
+        q_c02_c11_reply_serial_reuse = call_function_reply_lemma(1, 1, 0, REUSE);
+        q_c02_c11_abort_one = abort_call_lemma(1, 1, 1, ONE);
+        q_c02_c11_abort_by_other = abort_call_lemma(1, 1, 0, ONE);
+    }
+    #[cfg(not(verif_quick))]
+    shapes! {
         q_c02_c11_reply_one_by_other = call_function_reply_lemma(1, 1, 1, ONE);
         q_c02_c11_reply_one_self_call = call_function_reply_lemma(0, 0, 0, ONE);
-        q_c02_c11_reply_one_aborted = call_function_reply_lemma(1, 1, 0, ONE_ABORTED);
         q_c02_c11_reply_two_same_caller = call_function_reply_lemma(1, 1, 0, TWO);
         q_c02_c11_reply_two_callers = call_function_reply_lemma(0, 1, 0, TWO);
-        q_c02_c11_reply_serial_reuse = call_function_reply_lemma(1, 1, 0, REUSE);
         q_c02_c11_reply_serial_reuse_self = call_function_reply_lemma(0, 0, 0, REUSE);
-        q_c02_c11_abort_one = abort_call_lemma(1, 1, 1, ONE);
         q_c02_c11_abort_one_self = abort_call_lemma(0, 0, 0, ONE);
         q_c02_c11_abort_two = abort_call_lemma(1, 1, 1, TWO);
-        q_c02_c11_abort_by_other = abort_call_lemma(1, 1, 0, ONE);
         q_c02_c11_abort_after_abort = abort_call_lemma(1, 1, 1, REUSE);
     }
 
@@ -1376,21 +1548,24 @@ mod events {
     // arguments: owner, sub[conn][event], all[conn], requester, event id, cookie known
     inst! {
         q_c04_c11_emit_both_subscribed = emit_event_lemma(0, [[T, F], [T, F]], [F, F], 0, 0, true) => log_len() == 2;
-        q_c04_c11_emit_all_events_subscriber = emit_event_lemma(0, [[F, F], [F, F]], [F, T], 0, 1, true) => log_len() == 1;
         q_c04_c11_emit_subscribed_both_ways_once = emit_event_lemma(0, [[F, F], [T, F]], [F, T], 0, 0, true) => log_len() == 1;
-        q_c04_c11_emit_other_event_only = emit_event_lemma(0, [[F, F], [F, T]], [F, F], 0, 0, true);
         q_c04_c11_emit_by_non_owner = emit_event_lemma(0, [[T, F], [T, F]], [F, F], 1, 0, true);
-        q_c04_c11_emit_unknown_cookie = emit_event_lemma(0, [[T, F], [T, F]], [F, F], 0, 0, false);
 
         q_c04_c11_subscribe_first = subscribe_event_lemma(0, [[F, F], [F, T]], [F, F], 1, 0, true)
             => count_kind_to(0, K::SubscribeEvent, |x| !x.has_serial) == 1;
         q_c04_c11_subscribe_second = subscribe_event_lemma(0, [[T, F], [F, F]], [F, F], 1, 0, true);
-        q_c04_c11_subscribe_again = subscribe_event_lemma(0, [[F, F], [T, F]], [F, F], 1, 0, true);
-        q_c04_c11_subscribe_unknown_cookie = subscribe_event_lemma(0, [[F, F], [F, F]], [F, F], 1, 0, false);
 
         q_c04_c11_unsubscribe_last = unsubscribe_event_lemma(0, [[F, F], [T, T]], [F, F], 1, 0, true)
             => count_kind_to(0, K::UnsubscribeEvent, |_| true) == 1;
         q_c04_c11_unsubscribe_one_of_two = unsubscribe_event_lemma(0, [[T, F], [T, F]], [F, F], 1, 0, true);
+    }
+    #[cfg(not(verif_quick))]
+    inst! {
+        q_c04_c11_emit_all_events_subscriber = emit_event_lemma(0, [[F, F], [F, F]], [F, T], 0, 1, true) => log_len() == 1;
+        q_c04_c11_emit_other_event_only = emit_event_lemma(0, [[F, F], [F, T]], [F, F], 0, 0, true);
+        q_c04_c11_emit_unknown_cookie = emit_event_lemma(0, [[T, F], [T, F]], [F, F], 0, 0, false);
+        q_c04_c11_subscribe_again = subscribe_event_lemma(0, [[F, F], [T, F]], [F, F], 1, 0, true);
+        q_c04_c11_subscribe_unknown_cookie = subscribe_event_lemma(0, [[F, F], [F, F]], [F, F], 1, 0, false);
         q_c04_c11_unsubscribe_not_subscribed = unsubscribe_event_lemma(0, [[T, F], [F, T]], [F, F], 1, 0, true);
         q_c04_c11_unsubscribe_unknown_cookie = unsubscribe_event_lemma(0, [[F, F], [T, F]], [F, F], 1, 0, false);
     }
@@ -1495,10 +1670,12 @@ mod bus_events {
         csv::bus_listeners_mut(w.b.conns.get_mut(&conn(owner)).unwrap()).insert(listener_cookie(cookie));
     }
 
-    fn any_event() -> BusEvent {
+    /// event kind concrete per instance (0 object created, 1 object destroyed, 2 service created,
+    /// 3 service destroyed), ids symbolic
+    fn event_of(kind: u8) -> BusEvent {
         let o = ObjectId::new(obj_uuid(any_below(2)), obj_cookie(kani::any()));
         let s = ServiceId::new(o, svc_uuid(any_below(2)), svc_cookie(kani::any()));
-        match kani::any::<u8>() % 4 {
+        match kind {
             0 => BusEvent::ObjectCreated(o),
             1 => BusEvent::ObjectDestroyed(o),
             2 => BusEvent::ServiceCreated(s),
@@ -1506,27 +1683,33 @@ mod bus_events {
         }
     }
 
-    /// first listener (visited first) and second listener: (owner, started-with-new?, has a filter that matches everything?)
-    fn dedup_lemma(first: (u8, bool, bool), second: (u8, bool, bool)) {
+    /// first listener (visited first) and second listener: (owner, started-with-new?, has a filter
+    /// that matches the event?). A non-matching listener is unstarted / started with scope Current /
+    /// has no filter or only a filter of the other family - all concrete per instance (`variant`),
+    /// the event's ids and the matching listeners' scope (New or All) are symbolic.
+    fn dedup_lemma(first: (u8, bool, bool), second: (u8, bool, bool), kind: u8, variant: bool) {
         let mut w = new_world();
         add_conn(&mut w, 0);
         add_conn(&mut w, 1);
-        let cfg = |c: (u8, bool, bool)| {
-            let scope = if c.1 { Some(if kani::any() { BusListenerScope::New } else { BusListenerScope::All }) } else if kani::any() { Some(BusListenerScope::Current) } else { None };
-            (c.0, scope, c.2)
+        let ev = event_of(kind);
+        let is_obj = kind < 2;
+        let scope_of = |started: bool| if started { Some(if kani::any() { BusListenerScope::New } else { BusListenerScope::All }) } else if variant { Some(BusListenerScope::Current) } else { None };
+        let filter_of = |m: bool| {
+            if m {
+                Some(if is_obj { BusListenerFilter::any_object() } else { BusListenerFilter::any_object_any_service() })
+            } else if variant {
+                Some(if is_obj { BusListenerFilter::any_object_any_service() } else { BusListenerFilter::any_object() })
+            } else {
+                None
+            }
         };
-        let ev = any_event();
-        let is_obj = matches!(ev, BusEvent::ObjectCreated(_) | BusEvent::ObjectDestroyed(_));
-        let all = |m: bool| if m { Some(if is_obj { BusListenerFilter::any_object() } else { BusListenerFilter::any_object_any_service() }) } else if kani::any() { Some(if is_obj { BusListenerFilter::any_object_any_service() } else { BusListenerFilter::any_object() }) } else { None };
-        let (o1, s1, m1) = cfg(first);
-        let (o2, s2, m2) = cfg(second);
-        add_listener(&mut w, 40, o1, s1, all(m1));
-        add_listener(&mut w, 41, o2, s2, all(m2));
+        add_listener(&mut w, 40, first.0, scope_of(first.1), filter_of(first.2));
+        add_listener(&mut w, 41, second.0, scope_of(second.1), filter_of(second.2));
         w.b.emit_bus_event(&mut w.st, ev);
         let mut c = 0u8;
         while c < 2 {
-            let wants = (o1 == c && first.1 && first.2) || (o2 == c && second.1 && second.2);
-            let got = count_kind_to(c, K::EmitBusEvent, |e| !e.has_serial);
+            let wants = (first.0 == c && first.1 && first.2) || (second.0 == c && second.1 && second.2);
+            let got = count_kind_to(c, K::EmitBusEvent, |e| !e.has_serial && e.code == kind);
             assert!(got == if wants && !send_fails(c) { 1 } else { 0 }, "each matching new event exactly once per connection, regardless of how many of its listeners match or in which order they are visited");
             assert!(log_count_to(c) == got);
             c += 1;
@@ -1535,27 +1718,198 @@ mod bus_events {
     }
 
     macro_rules! inst {
-        ($($name:ident = ($a:expr, $b:expr);)*) => {$(
+        ($($name:ident = ($a:expr, $b:expr, $k:expr, $v:expr);)*) => {$(
             #[kani::proof]
             #[kani::unwind(18)]
             fn $name() {
-                dedup_lemma($a, $b);
+                dedup_lemma($a, $b, $k, $v);
             }
         )*};
     }
 
     inst! {
-        q_c10_c11_bus_event_nonmatching_then_matching_same_conn = ((0, true, false), (0, true, true));
-        q_c10_c11_bus_event_unstarted_then_matching_same_conn = ((0, false, true), (0, true, true));
-        q_c10_c11_bus_event_both_matching_same_conn = ((0, true, true), (0, true, true));
-        q_c10_c11_bus_event_matching_then_nonmatching_same_conn = ((0, true, true), (0, true, false));
-        q_c10_c11_bus_event_two_conns_both_matching = ((0, true, true), (1, true, true));
-        q_c10_c11_bus_event_two_conns_one_matching = ((1, false, true), (0, true, true));
-        q_c10_c11_bus_event_none_matching = ((0, true, false), (1, false, true));
+        q_c10_c11_bus_event_nonmatching_then_matching_same_conn = ((0, true, false), (0, true, true), 0, false);
+    }
+    #[cfg(not(verif_quick))]
+    inst! {
+        t_c10_c11_bus_event_both_matching_same_conn = ((0, true, true), (0, true, true), 2, true);
+        t_c10_c11_bus_event_unstarted_then_matching_same_conn = ((0, false, true), (0, true, true), 1, false);
+        t_c10_c11_bus_event_current_scope_then_matching_same_conn = ((0, false, true), (0, true, true), 3, true);
+        t_c10_c11_bus_event_other_family_filter_then_matching = ((0, true, false), (0, true, true), 2, true);
+        t_c10_c11_bus_event_matching_then_nonmatching_same_conn = ((0, true, true), (0, true, false), 0, true);
+        t_c10_c11_bus_event_two_conns_both_matching = ((0, true, true), (1, true, true), 0, false);
+        t_c10_c11_bus_event_two_conns_one_matching = ((1, false, true), (0, true, true), 3, false);
+        t_c10_c11_bus_event_none_matching = ((0, true, false), (1, false, true), 1, true);
     }
 
     #[cfg(verif_replay)]
     include!("/verif/.cache/replay/broker__verif__bus_events.rs");
+}
+
+// =================================================================================================
+// C10: starting a listener reports exactly the matching current objects and services
+// =================================================================================================
+#[cfg(any(verif_unit = "all", verif_unit = "bus_start", verif_unit = "bus_start_t"))]
+mod bus_start {
+    use super::*;
+    use aldrin_core::BusListenerFilter;
+
+    /// the six filter shapes over the uuid pool
+    #[derive(Clone, Copy)]
+    pub(crate) enum F {
+        AnyObject,
+        Object(u8),
+        AnyAny,
+        ObjectAny(u8),
+        AnyService(u8),
+        ObjectService(u8, u8),
+    }
+
+    fn mk(f: F) -> BusListenerFilter {
+        match f {
+            F::AnyObject => BusListenerFilter::any_object(),
+            F::Object(u) => BusListenerFilter::object(obj_uuid(u)),
+            F::AnyAny => BusListenerFilter::any_object_any_service(),
+            F::ObjectAny(u) => BusListenerFilter::specific_object_any_service(obj_uuid(u)),
+            F::AnyService(su) => BusListenerFilter::any_object_specific_service(svc_uuid(su)),
+            F::ObjectService(u, su) => BusListenerFilter::specific_object_and_service(obj_uuid(u), svc_uuid(su)),
+        }
+    }
+
+    /// specification of the filter predicate, written independently of `BusListenerFilter::matches_*`
+    fn want_object(fs: &[F], o: ObjSpec) -> bool {
+        let mut m = false;
+        let mut i = 0;
+        while i < fs.len() {
+            m |= match fs[i] {
+                F::AnyObject => true,
+                F::Object(u) => u == o.0,
+                _ => false,
+            };
+            i += 1;
+        }
+        m
+    }
+
+    fn want_service(fs: &[F], sv: SvcSpec) -> bool {
+        let mut m = false;
+        let mut i = 0;
+        while i < fs.len() {
+            m |= match fs[i] {
+                F::AnyAny => true,
+                F::ObjectAny(u) => u == sv.0,
+                F::AnyService(su) => su == sv.2,
+                F::ObjectService(u, su) => u == sv.0 && su == sv.2,
+                _ => false,
+            };
+            i += 1;
+        }
+        m
+    }
+
+    /// Listener 40 of connection 0 with the given filters (at most two: CAP), not started unless
+    /// `started`; a second listener 41 of connection 1. `scope`: 0 current, 1 new, 2 all.
+    /// `cookie`: 40 own listener, 41 somebody else's, 42 unknown.
+    fn start_lemma(shape: RegShape, fs: &'static [F], scope: u8, started: bool, cookie: u8) {
+        let mut w = reg_world(shape);
+        set_send_fails(0, false);
+        let mut l = BusListener::new(conn(0));
+        let mut i = 0;
+        while i < fs.len() {
+            l.add_filter(mk(fs[i]));
+            i += 1;
+        }
+        if started {
+            l.start(if kani::any() { BusListenerScope::New } else { BusListenerScope::Current });
+        }
+        let scope0 = blv::scope(&l);
+        w.b.bus_listeners.insert(listener_cookie(40), l);
+        csv::bus_listeners_mut(w.b.conns.get_mut(&conn(0)).unwrap()).insert(listener_cookie(40));
+        w.b.bus_listeners.insert(listener_cookie(41), BusListener::new(conn(1)));
+        csv::bus_listeners_mut(w.b.conns.get_mut(&conn(1)).unwrap()).insert(listener_cookie(41));
+        let serial: u32 = kani::any();
+        let sc = match scope {
+            0 => BusListenerScope::Current,
+            1 => BusListenerScope::New,
+            _ => BusListenerScope::All,
+        };
+        let r = w.b.start_bus_listener(&conn(0), StartBusListener { serial, cookie: listener_cookie(cookie), scope: sc });
+        assert!(r.is_ok());
+        assert!(log_len() >= 1 && log(0).to == 0 && log(0).kind == K::StartBusListenerReply && log(0).serial == serial, "the reply comes first");
+        assert!(log_count_to(1) == 0, "nothing goes to other connections");
+        if cookie != 40 {
+            assert!(log(0).code == 1 && log_len() == 1, "unknown or foreign listener: InvalidBusListener and nothing else");
+            assert!(blv::scope(w.b.bus_listeners.get(&listener_cookie(41)).unwrap()).is_none(), "somebody else's listener is not started");
+        } else if started {
+            assert!(log(0).code == 2 && log_len() == 1, "AlreadyStarted and nothing else");
+            assert!(blv::scope(w.b.bus_listeners.get(&listener_cookie(40)).unwrap()) == scope0, "the running scope is untouched");
+        } else {
+            assert!(log(0).code == 0);
+            assert!(blv::scope(w.b.bus_listeners.get(&listener_cookie(40)).unwrap()) == Some(sc));
+            if scope == 1 {
+                assert!(log_len() == 1, "scope New: no current entities are reported");
+            } else {
+                let mut n = 0;
+                let mut i = 0;
+                while i < shape.objs.len() {
+                    let o = shape.objs[i];
+                    let got = count_kind_to(0, K::EmitBusEvent, |e| e.has_serial && e.cookie == 40 && e.code == 0 && e.aux == ((o.0 as u32) << 8 | o.1 as u32));
+                    assert!(got == if want_object(fs, o) { 1 } else { 0 }, "exactly one tagged created-event per matching object, none for the others");
+                    n += got;
+                    i += 1;
+                }
+                let mut i = 0;
+                while i < shape.svcs.len() {
+                    let sv = shape.svcs[i];
+                    let got = count_kind_to(0, K::EmitBusEvent, |e| e.has_serial && e.cookie == 40 && e.code == 2 && e.aux == ((sv.0 as u32) << 8 | sv.1 as u32) && e.aux2 == ((sv.2 as u32) << 8 | sv.3 as u32));
+                    assert!(got == if want_service(fs, sv) { 1 } else { 0 }, "exactly one tagged created-event per matching service, none for the others");
+                    n += got;
+                    i += 1;
+                }
+                assert!(log_len() == n + 2, "nothing else carries the tag");
+                let last = log(log_len() - 1);
+                assert!(last.kind == K::BusListenerCurrentFinished && last.cookie == 40, "followed by one end-of-current marker");
+            }
+        }
+        std::mem::forget(w);
+    }
+
+    macro_rules! inst {
+        ($($name:ident = ($shape:expr, $fs:expr, $scope:expr, $started:expr, $cookie:expr);)*) => {$(
+            #[kani::proof]
+            #[kani::unwind(18)]
+            fn $name() {
+                start_lemma($shape, $fs, $scope, $started, $cookie);
+            }
+        )*};
+    }
+
+    const ONE_SVC: RegShape = RegShape { objs: &[(0, 10, 0)], svcs: &[(0, 10, 0, 20)] };
+    const TWO_SVCS: RegShape = RegShape { objs: &[(0, 10, 0)], svcs: &[(0, 10, 0, 20), (0, 10, 1, 21)] };
+    const TWO_OWNERS: RegShape = RegShape { objs: &[(0, 10, 0), (1, 11, 1)], svcs: &[(0, 10, 0, 20), (1, 11, 0, 21)] };
+
+    inst! {
+        q_c10_c11_start_all_any_object_scan_path = (ONE_SVC, &[F::AnyObject], 2, false, 40);
+        q_c10_c11_start_current_specific_object_two_objects = (TWO_OWNERS, &[F::Object(1)], 0, false, 40);
+        q_c10_c11_start_new_reports_nothing = (ONE_SVC, &[F::AnyObject, F::AnyAny], 1, false, 40);
+        q_c10_c11_start_foreign_listener = (ONE_SVC, &[F::AnyObject], 2, false, 41);
+    }
+    #[cfg(not(verif_quick))]
+    inst! {
+        t_c10_c11_start_all_any_object_and_any_service = (ONE_SVC, &[F::AnyObject, F::AnyAny], 2, false, 40);
+        t_c10_c11_start_all_any_service_scan_path = (ONE_SVC, &[F::AnyAny], 2, false, 40);
+        t_c10_c11_start_current_specific_service = (TWO_SVCS, &[F::ObjectService(0, 1)], 0, false, 40);
+        t_c10_c11_start_all_any_service_uuid = (TWO_OWNERS, &[F::AnyService(0)], 2, false, 40);
+        t_c10_c11_start_all_object_any_service = (TWO_OWNERS, &[F::ObjectAny(1), F::Object(0)], 2, false, 40);
+        t_c10_c11_start_all_mixed_fast_and_scan = (TWO_OWNERS, &[F::ObjectService(0, 0), F::AnyAny], 2, false, 40);
+        t_c10_c11_start_current_no_filters = (TWO_OWNERS, &[], 0, false, 40);
+        t_c10_c11_start_already_started = (ONE_SVC, &[F::AnyObject], 2, true, 40);
+        t_c10_c11_start_unknown_listener = (ONE_SVC, &[F::AnyObject], 0, false, 42);
+        t_c10_c11_start_current_missing_specific = (ONE_SVC, &[F::Object(1), F::ObjectService(1, 0)], 0, false, 40);
+    }
+
+    #[cfg(verif_replay)]
+    include!("/verif/.cache/replay/broker__verif__bus_start.rs");
 }
 
 // =================================================================================================
@@ -1565,13 +1919,23 @@ mod bus_events {
 mod shutdown {
     use super::*;
 
-    /// Connection 0 leaves. Concrete shape, symbolic scalars (event id, serials, capacities,
-    /// versions, peer liveness): it owns object (0, 10) with service (0, 20); connection 1 is
-    /// subscribed to one event of that service and has one call pending on it.
-    fn owner_leaves(with_sub: bool, with_call: bool) {
+    /// two connections whose peers are alive or gone as given (concrete: with symbolic liveness
+    /// the lengths of the deferred-work queues become symbolic and `process_loop_result` is
+    /// unrolled to the bound on every path - no lemma finished in 25 min), versions symbolic
+    fn two_conns(alive0: bool, alive1: bool) -> World {
         let mut w = new_world();
         add_conn(&mut w, 0);
         add_conn(&mut w, 1);
+        set_send_fails(0, !alive0);
+        set_send_fails(1, !alive1);
+        w
+    }
+
+    /// Connection 0 leaves. Concrete shape, symbolic scalars (event id, serials, versions, forced
+    /// or not): it owns object (0, 10) with service (0, 20); connection 1 is subscribed to one
+    /// event of that service and/or to the service itself and/or has one call pending on it.
+    fn owner_leaves(with_sub: bool, with_svc_sub: bool, with_call: bool, alive0: bool, alive1: bool) {
+        let mut w = two_conns(alive0, alive1);
         add_object(&mut w, 0, 10, 0);
         add_service(&mut w, 0, 10, 0, 20, ServiceInfo::new(1));
         let ev: u32 = kani::any();
@@ -1580,6 +1944,10 @@ mod shutdown {
         if with_sub {
             w.b.svcs.get_mut(&(obj_uuid(0), svc_uuid(0))).unwrap().subscribe_event(ev, conn(1));
             w.b.conns.get_mut(&conn(1)).unwrap().subscribe_event(svc_cookie(20), ev);
+        }
+        if with_svc_sub {
+            w.b.svcs.get_mut(&(obj_uuid(0), svc_uuid(0))).unwrap().subscribe(conn(1));
+            w.b.conns.get_mut(&conn(1)).unwrap().subscribe(svc_cookie(20));
         }
         if with_call {
             install_call(&mut w, &CallSpec { present: true, serial: s, caller: 1, caller_serial: cs, aborted: false }, 0);
@@ -1593,34 +1961,35 @@ mod shutdown {
         assert!(w.b.svcs.is_empty() && w.b.svc_uuids.is_empty(), "and their services");
         assert!(smv::elems(&w.b.function_calls).is_empty(), "no pending call survives its service");
         assert!(!w.st.has_work_left());
-        if has_conn(&w, 1) {
+        let notified = with_sub || with_svc_sub;
+        if alive1 || !(notified || with_call) {
+            assert!(has_conn(&w, 1), "a peer that can be reached stays");
             let c1 = w.b.conns.get(&conn(1)).unwrap();
-            assert!(csv::events(c1).is_empty(), "the peer's subscriptions to the dead service end");
+            assert!(csv::events(c1).is_empty() && csv::subscriptions(c1).is_empty(), "the peer's subscriptions to the dead service end");
             assert!(csv::calls(c1).is_empty(), "the peer's call bookkeeping is released");
             let destroyed = count_kind_to(1, K::ServiceDestroyed, |e| e.cookie == 20);
-            assert!(destroyed == if with_sub { 1 } else { 0 }, "a subscribed peer is told once that the service is gone");
+            assert!(destroyed == if notified && alive1 { 1 } else { 0 }, "a subscribed peer is told once that the service is gone");
             let replies = count_kind_to(1, K::CallFunctionReply, |e| e.serial == cs && e.code == 3);
-            assert!(replies == if with_call { 1 } else { 0 }, "a pending call is answered once with InvalidService");
+            assert!(replies == if with_call && alive1 { 1 } else { 0 }, "a pending call is answered once with InvalidService");
             assert!(log_count_to(1) == destroyed + replies, "nothing else reaches the peer");
         } else {
             // the peer's transport failed while it was being told: it is torn down as well
-            assert!(send_fails(1));
-            assert!(w.b.conns.is_empty());
+            assert!(w.b.conns.is_empty(), "a peer that cannot be told is torn down as well: the broker is empty");
         }
         let to0 = log_count_to(0);
-        assert!(to0 == if send_shutdown && !send_fails(0) { 1 } else { 0 });
+        assert!(to0 == if send_shutdown && alive0 { 1 } else { 0 });
         if to0 == 1 {
             assert!(find_where(|e| e.to == 0).unwrap().kind == K::Shutdown, "a forced shutdown is announced to the connection");
         }
+        kani::cover!(send_shutdown);
+        kani::cover!(!send_shutdown);
         std::mem::forget(w);
     }
 
     /// Connection 1 leaves while subscribed to / calling a service of connection 0: the owner is
     /// told to stop producing the event and to abort the call.
-    fn subscriber_leaves() {
-        let mut w = new_world();
-        add_conn(&mut w, 0);
-        add_conn(&mut w, 1);
+    fn subscriber_leaves(alive0: bool) {
+        let mut w = two_conns(alive0, true);
         add_object(&mut w, 0, 10, 0);
         add_service(&mut w, 0, 10, 0, 20, ServiceInfo::new(1));
         let ev: u32 = kani::any();
@@ -1633,7 +2002,8 @@ mod shutdown {
         w.b.shutdown_connection(&mut w.st, &conn(1), false);
         w.b.process_loop_result(&mut w.st);
         assert!(!has_conn(&w, 1) && !w.st.has_work_left());
-        if has_conn(&w, 0) {
+        if alive0 {
+            assert!(has_conn(&w, 0));
             assert!(svv::events(w.b.svcs.get(&(obj_uuid(0), svc_uuid(0))).unwrap()).is_empty(), "no subscriber entry of the dead connection stays");
             let unsub = count_kind_to(0, K::UnsubscribeEvent, |e| e.cookie == 20 && e.aux == ev);
             assert!(unsub == 1, "the owner is told to stop producing the event: 1 -> 0 caused by a disconnect");
@@ -1642,38 +2012,210 @@ mod shutdown {
             assert!(log_count_to(0) == unsub + abort);
             assert!(call_pending(&w, s) == Some((cs, 1, true)), "the call stays, marked aborted, until the owner answers or its service goes");
         } else {
-            assert!(send_fails(0) && w.b.conns.is_empty() && w.b.objs.is_empty() && w.b.svcs.is_empty());
+            assert!(w.b.conns.is_empty() && w.b.objs.is_empty() && w.b.svcs.is_empty() && smv::elems(&w.b.function_calls).is_empty(), "an owner that cannot be told is torn down as well: the broker is empty");
         }
         assert!(log_count_to(1) == 0, "nothing is sent to the connection that left");
+        kani::cover!(owner_minor >= 16);
+        kani::cover!(owner_minor < 16);
         std::mem::forget(w);
     }
 
-    #[kani::proof]
-    #[kani::unwind(18)]
-    fn q_c09_c03_owner_leaves_with_subscriber() {
-        owner_leaves(true, false);
+    /// Connection 0 leaves while holding channel ends and a bus listener: the peer of each channel
+    /// is told exactly once that the end is closed, a channel without a claimed end left is removed,
+    /// the listener is gone.
+    fn leaves_with_channel_and_listener(sd: chv::EndSpec, rc: chv::EndSpec, alive1: bool) {
+        let mut w = two_conns(true, alive1);
+        let ch = chv::mk_channel(sd, rc);
+        if let chv::EndSpec::C(o) = sd {
+            csv::senders_mut(w.b.conns.get_mut(&conn(o)).unwrap()).insert(chan_cookie(30));
+        }
+        if let chv::EndSpec::C(o) = rc {
+            csv::receivers_mut(w.b.conns.get_mut(&conn(o)).unwrap()).insert(chan_cookie(30));
+        }
+        w.b.channels.insert(chan_cookie(30), ch);
+        w.b.bus_listeners.insert(listener_cookie(40), BusListener::new(conn(0)));
+        csv::bus_listeners_mut(w.b.conns.get_mut(&conn(0)).unwrap()).insert(listener_cookie(40));
+        w.b.shutdown_connection(&mut w.st, &conn(0), false);
+        w.b.process_loop_result(&mut w.st);
+        assert!(!has_conn(&w, 0) && !w.st.has_work_left());
+        assert!(w.b.bus_listeners.is_empty(), "its bus listeners are gone");
+        let s_mine = matches!(sd, chv::EndSpec::C(0));
+        let r_mine = matches!(rc, chv::EndSpec::C(0));
+        let peer_end = if s_mine && matches!(rc, chv::EndSpec::C(1)) { Some(0u8) } else if r_mine && matches!(sd, chv::EndSpec::C(1)) { Some(1u8) } else { None };
+        match peer_end {
+            Some(code) if alive1 => {
+                let told = count_kind_to(1, K::ChannelEndClosed, |e| e.cookie == 30 && e.code == code);
+                assert!(told == 1 && log_count_to(1) == 1, "the peer is told exactly once which end was closed");
+                let ch = w.b.channels.get(&chan_cookie(30)).unwrap();
+                assert!(chv::sender_claimed(ch).map(|(o, _)| o != conn(0)).unwrap_or(true) && chv::receiver_claimed(ch).map(|(o, _)| o != conn(0)).unwrap_or(true), "no end names the dead connection");
+                assert!(inv_chan(&w.b));
+            }
+            _ => {
+                assert!(w.b.channels.is_empty(), "no claimed end left (or the peer is gone too): the channel is removed");
+                if !alive1 && peer_end.is_some() {
+                    assert!(w.b.conns.is_empty());
+                }
+            }
+        }
+        assert!(log_count_to(0) == 0);
+        std::mem::forget(w);
     }
 
-    #[kani::proof]
-    #[kani::unwind(18)]
-    fn q_c09_c02_owner_leaves_with_pending_call() {
-        owner_leaves(false, true);
+    macro_rules! inst {
+        ($($name:ident = $lemma:ident($($arg:expr),*);)*) => {$(
+            #[kani::proof]
+            #[kani::unwind(18)]
+            fn $name() {
+                $lemma($($arg),*);
+            }
+        )*};
     }
+    use chv::EndSpec::{C, U, X};
 
-    #[kani::proof]
-    #[kani::unwind(18)]
-    fn t_c09_c02_c03_owner_leaves_with_both() {
-        owner_leaves(true, true);
+    // Not registered (cfg verif_experimental): every teardown lemma. `shutdown_connection` followed
+    // by `process_loop_result` runs the SAT back end out of memory at 14 GB even when the leaving
+    // connection only holds a channel end and a bus listener (that instance was proved once, in
+    // 642 s, with a 20 GB limit and nothing else running).
+    #[cfg(verif_experimental)]
+    inst! {
+        q_c09_c05_leaves_with_sender_end_and_listener = leaves_with_channel_and_listener(C(0), C(1), true);
+        q_c09_c05_leaves_with_both_ends = leaves_with_channel_and_listener(C(0), C(0), true);
+        t_c09_c05_leaves_with_receiver_end = leaves_with_channel_and_listener(C(1), C(0), true);
+        t_c09_c05_leaves_with_unclaimed_peer_end = leaves_with_channel_and_listener(C(0), U, true);
+        t_c09_c05_leaves_with_closed_peer_end = leaves_with_channel_and_listener(X, C(0), true);
+        t_c09_c05_leaves_peer_unreachable = leaves_with_channel_and_listener(C(0), C(1), false);
     }
-
-    #[kani::proof]
-    #[kani::unwind(18)]
-    fn q_c09_c02_c04_subscriber_and_caller_leaves() {
-        subscriber_leaves();
+    // Not registered (cfg verif_experimental): teardown of a connection that owns an object with a
+    // service, or is subscribed to / calling one. Every such instance goes through
+    // `remove_object` / `remove_service` / `remove_event_subscription` and the SAT back end runs out
+    // of memory (> 14 GB), like the successful destroy requests of the registry unit.
+    // owner_leaves(event subscriber, service subscriber, pending call, leaving peer alive, other peer alive)
+    #[cfg(verif_experimental)]
+    inst! {
+        q_c09_c03_c04_owner_leaves_with_subscriber = owner_leaves(true, false, false, true, true);
+        q_c09_c02_c03_owner_leaves_with_pending_call = owner_leaves(false, false, true, true, true);
+        q_c09_c02_c04_subscriber_and_caller_leaves = subscriber_leaves(true);
+        t_c09_c02_c03_c04_owner_leaves_with_both = owner_leaves(true, true, true, true, true);
+        t_c09_c03_c04_owner_leaves_service_subscriber = owner_leaves(false, true, false, true, true);
+        t_c09_c03_owner_leaves_dead_transport = owner_leaves(true, false, true, false, true);
+        t_c09_c03_owner_leaves_peer_unreachable = owner_leaves(true, false, false, true, false);
+        t_c09_c03_owner_leaves_alone = owner_leaves(false, false, false, false, true);
+        t_c09_c02_c04_subscriber_leaves_owner_unreachable = subscriber_leaves(false);
     }
 
     #[cfg(verif_replay)]
     include!("/verif/.cache/replay/broker__verif__shutdown.rs");
+}
+
+// =================================================================================================
+// C09: the published statistics gauges equal the true number of live entities (feature statistics)
+// =================================================================================================
+#[cfg(all(feature = "statistics", any(verif_unit = "all", verif_unit = "stats", verif_unit = "stats_t")))]
+mod stats {
+    use super::*;
+
+    /// `Instant::now()` is a foreign call (clock_gettime) that Kani cannot execute; the statistics
+    /// only store the two instants, so any valid value will do.
+    pub(crate) fn fixed_instant() -> std::time::Instant {
+        unsafe { std::mem::zeroed() }
+    }
+
+    fn gauges_match(w: &World) -> bool {
+        w.b.statistics.num_connections == w.b.conns.len()
+            && w.b.statistics.num_objects == w.b.objs.len()
+            && w.b.statistics.num_services == w.b.svcs.len()
+            && w.b.statistics.num_channels == w.b.channels.len()
+            && w.b.statistics.num_bus_listeners == w.b.bus_listeners.len()
+    }
+
+    /// connections 0 and 1 (1 alive or not as given), one established channel 30 between them, all
+    /// gauges in line with the maps
+    fn world(alive1: bool) -> World {
+        let mut w = new_world();
+        add_conn(&mut w, 0);
+        add_conn(&mut w, 1);
+        set_send_fails(0, false);
+        set_send_fails(1, !alive1);
+        let ch = chv::mk_channel(chv::EndSpec::C(0), chv::EndSpec::C(0));
+        csv::senders_mut(w.b.conns.get_mut(&conn(0)).unwrap()).insert(chan_cookie(30));
+        csv::receivers_mut(w.b.conns.get_mut(&conn(0)).unwrap()).insert(chan_cookie(30));
+        w.b.channels.insert(chan_cookie(30), ch);
+        w.b.statistics.num_connections = 2;
+        w.b.statistics.num_channels = 1;
+        set_fresh(0x90);
+        assert!(gauges_match(&w));
+        w
+    }
+
+    /// what `handle_event` does with a handler's result
+    fn settle(w: &mut World, who: u8, r: Result<(), ()>) {
+        if r.is_err() {
+            w.st.push_remove_conn(conn(who), false);
+        }
+        w.b.process_loop_result(&mut w.st);
+    }
+
+    /// Every create request leaves the gauges equal to the sizes of the maps right after the
+    /// handler - also when the reply cannot be delivered (the requester is then torn down, which
+    /// releases what was registered; with `teardown` the deferred work is run as well and the gauges
+    /// are compared again).
+    fn create_lemma(what: u8, alive1: bool, teardown: bool) {
+        let mut w = world(alive1);
+        let serial: u32 = kani::any();
+        let r = match what {
+            0 => w.b.create_channel(&conn(1), CreateChannel { serial, end: ChannelEndWithCapacity::Sender }),
+            1 => w.b.create_channel(&conn(1), CreateChannel { serial, end: ChannelEndWithCapacity::Receiver(kani::any()) }),
+            2 => w.b.create_object(&mut w.st, &conn(1), CreateObject { serial, uuid: obj_uuid(0) }),
+            _ => w.b.create_bus_listener(&conn(1), CreateBusListener { serial }),
+        };
+        assert!(r.is_ok() == alive1);
+        assert!(gauges_match(&w), "the gauges equal the number of live entities right after the request");
+        if teardown {
+            settle(&mut w, 1, r);
+            assert!(has_conn(&w, 1) == alive1);
+            assert!(gauges_match(&w), "and after the requester has been torn down");
+        }
+        std::mem::forget(w);
+    }
+
+    macro_rules! inst {
+        ($($name:ident = ($what:expr, $alive:expr, $td:expr);)*) => {$(
+            #[kani::proof]
+            #[kani::unwind(18)]
+            #[kani::stub(std::time::Instant::now, fixed_instant)]
+            #[kani::stub(aldrin_core::ObjectCookie::new_v4, fresh_obj_cookie)]
+            #[kani::stub(aldrin_core::ChannelCookie::new_v4, fresh_chan_cookie)]
+            #[kani::stub(aldrin_core::BusListenerCookie::new_v4, fresh_listener_cookie)]
+            fn $name() {
+                create_lemma($what, $alive, $td);
+            }
+        )*};
+    }
+
+    inst! {
+        q_c09_gauges_create_channel_sender_reply_undeliverable = (0, false, false);
+        q_c09_gauges_create_channel_sender = (0, true, true);
+        q_c09_gauges_create_channel_receiver_reply_undeliverable = (1, false, false);
+        q_c09_gauges_create_object_reply_undeliverable = (2, false, false);
+        q_c09_gauges_create_bus_listener_reply_undeliverable = (3, false, false);
+    }
+    #[cfg(not(verif_quick))]
+    inst! {
+        t_c09_gauges_create_channel_receiver = (1, true, true);
+        t_c09_gauges_create_object = (2, true, true);
+        t_c09_gauges_create_bus_listener = (3, true, true);
+    }
+    // Not registered: the same lemmas followed by the teardown of the requester (`teardown`). The
+    // SAT back end runs out of memory (14 GB) on `shutdown_connection` + `process_loop_result`.
+    #[cfg(verif_experimental)]
+    inst! {
+        x_c09_gauges_create_channel_sender_reply_undeliverable_teardown = (0, false, true);
+        x_c09_gauges_create_channel_receiver_reply_undeliverable_teardown = (1, false, true);
+        x_c09_gauges_create_bus_listener_reply_undeliverable_teardown = (3, false, true);
+    }
+
+    #[cfg(verif_replay)]
+    include!("/verif/.cache/replay/broker__verif__stats.rs");
 }
 
 // =================================================================================================
@@ -1809,12 +2351,9 @@ mod calls_fwd {
                 assert!(stv::remove_conns(&cw.w.st).is_empty());
             }
         }
-        if known {
-            kani::cover!(r.is_ok() && log_len() == 1 && log(0).kind == K::CallFunction);
-            kani::cover!(r.is_ok() && log_len() == 1 && log(0).kind == K::CallFunction2);
-        } else {
-            kani::cover!(r.is_ok() && log_len() == 1);
-        }
+        kani::cover!(!known || (r.is_ok() && log_len() == 1 && log(0).kind == K::CallFunction));
+        kani::cover!(!known || (r.is_ok() && log_len() == 1 && log(0).kind == K::CallFunction2));
+        kani::cover!(known || (r.is_ok() && log_len() == 1));
         std::mem::forget(cw);
     }
 
@@ -1834,11 +2373,14 @@ mod calls_fwd {
     inst! {
         q_c02_c03_c12_c11_call_first = (1, 1, NONE_PENDING, true, false);
         q_c02_c03_c12_c11_call2_first = (1, 1, NONE_PENDING, true, true);
+        q_c02_c03_c12_c11_call_after_abort_serial_reuse = (1, 1, ONE_ABORTED, true, false);
+        q_c02_c03_c12_c11_call_dead_cookie = (1, 1, ONE, false, false);
+    }
+    #[cfg(not(verif_quick))]
+    inst! {
         q_c02_c03_c12_c11_call_second_same_caller = (1, 1, ONE, true, false);
         q_c02_c03_c12_c11_call2_second_other_caller = (0, 1, ONE, true, true);
         q_c02_c03_c12_c11_call_self = (0, 0, ONE, true, false);
-        q_c02_c03_c12_c11_call_after_abort_serial_reuse = (1, 1, ONE_ABORTED, true, false);
-        q_c02_c03_c12_c11_call_dead_cookie = (1, 1, ONE, false, false);
         q_c02_c03_c12_c11_call2_dead_cookie = (1, 1, NONE_PENDING, false, true);
     }
 
